@@ -164,6 +164,7 @@ static int inproc_case(const dd_prog_t *p, const dd_cfg_t *cfg)
     if (dh_set_add(&L.seen, behaviour_hash(p, cfg))) ST->outcomes++;
     if (run_is_nontrivial(p)) ST->nontrivial++;
     for (int t = 0; t < p->nt; t++) if (dd_log[t].with_reader) { ST->extra[5]++; break; }
+    { int ov = 0; for (int i = 0; i < p->nt; i++) for (int j = i + 1; j < p->nt; j++) if (dd_log[i].count && dd_log[j].count && dd_log[j].enter < dd_log[i].exit && dd_log[i].enter < dd_log[j].exit) ov = 1; if (ov) ST->extra[4]++; }
     if (oracle(p, cfg, &ref, &res, msg, sizeof(msg))) { fail_record(msg); return 1; }
     return 0;
 }
@@ -235,6 +236,7 @@ static int run_case(const dd_prog_t *p, const dd_cfg_t *cfg)
     int r = dh_isolated(child_case, &ca, dh_hang_s, err, sizeof(err), &sig);
     if (r == 0) return 0;
     if (!SH->failed) {       /* crash or hang: the child could not record anything */
+        ST->executions++;
         snprintf(SH->kv, sizeof(SH->kv), "%s", (const char *)dh_slot->kv);
         if (r == 3) snprintf(SH->msg, sizeof(SH->msg), "no progress for %.0f s: the taskpool never terminated (hang / lost task / livelock)", dh_hang_s);
         else snprintf(SH->msg, sizeof(SH->msg), "the runtime crashed (signal %d) while executing this case: %s", sig, err);
@@ -262,6 +264,48 @@ static int run_case(const dd_prog_t *p, const dd_cfg_t *cfg)
     emit_failure(); return 1;
 }
 
+/* ------------------------------------------------------------------ leg mt: real scheduler module behind a gate */
+/* N free-running streams and the REAL scheduler module (any of the 11), wrapped so that an insertion by the main thread
+ * never overlaps the prepare_input / body / completion of a task on another stream: select() hands nothing out while
+ * the main thread is inserting, and the main thread starts inserting only when no other stream holds a task
+ * (Dekker handshake on ws_inserting / ws_busy[]). Tasks still run concurrently with each other, in the order and on
+ * the streams the real scheduler decides. (Excludes the instruction-level window of NOTES.md F5.) */
+static parsec_sched_module_t *ws_real = NULL; static parsec_sched_module_t ws_module;
+static volatile int ws_inserting = 0; static volatile int ws_busy[64]; static volatile long ws_denied = 0, ws_parallel = 0;
+static int ws_install(parsec_context_t *c) { (void)c; return 0; }
+static int ws_flow_init(parsec_execution_stream_t *es, struct parsec_barrier_t *b) { (void)es; (void)b; return 0; }
+static void ws_remove(parsec_context_t *c) { (void)c; }
+static int ws_schedule(parsec_execution_stream_t *es, parsec_task_t *ring, int32_t d) { return ws_real->module.schedule(es, ring, d); }
+static parsec_task_t *ws_select(parsec_execution_stream_t *es, int32_t *d)
+{
+    int me = es->th_id & 63;
+    __atomic_store_n(&ws_busy[me], 0, __ATOMIC_SEQ_CST);
+    if (me == 0) return ws_real->module.select(es, d);
+    __atomic_store_n(&ws_busy[me], 1, __ATOMIC_SEQ_CST);
+    if (__atomic_load_n(&ws_inserting, __ATOMIC_SEQ_CST)) { __atomic_store_n(&ws_busy[me], 0, __ATOMIC_SEQ_CST); ws_denied++; return NULL; }
+    parsec_task_t *t = ws_real->module.select(es, d);
+    if (!t) __atomic_store_n(&ws_busy[me], 0, __ATOMIC_SEQ_CST);
+    else { int others = 0; for (int i = 0; i < 64; i++) if (i != me && ws_busy[i]) others++; if (others) ws_parallel++; }
+    return t;
+}
+static void ws_before_insert(parsec_taskpool_t *tp, int next)
+{
+    (void)tp; (void)next;
+    __atomic_store_n(&ws_inserting, 1, __ATOMIC_SEQ_CST);
+    for (;;) { int b = 0; for (int i = 1; i < 64; i++) if (__atomic_load_n(&ws_busy[i], __ATOMIC_SEQ_CST)) b = 1; if (!b) break; sched_yield(); }
+}
+static void ws_open(void) { __atomic_store_n(&ws_inserting, 0, __ATOMIC_SEQ_CST); }
+static void ws_wrap(void)
+{
+    ws_real = parsec_current_scheduler;
+    ws_module.component = ws_real->component;
+    ws_module.module.install = ws_install; ws_module.module.flow_init = ws_flow_init; ws_module.module.schedule = ws_schedule;
+    ws_module.module.select = ws_select; ws_module.module.display_stats = NULL; ws_module.module.remove = ws_remove;
+    parsec_current_scheduler = &ws_module;
+    dd_hook_before_insert = ws_before_insert; dd_hook_after_insert = ws_open; dd_hook_before_wait = ws_open;
+}
+static void ws_unwrap(void) { if (ws_real) parsec_current_scheduler = ws_real; }
+
 /* ------------------------------------------------------------------ workers */
 static int prog_cb_all(const dd_prog_t *p, long pidx, void *arg)
 {
@@ -283,7 +327,7 @@ static int prog_cb_all(const dd_prog_t *p, long pidx, void *arg)
     return 0;
 }
 static const char *SCHEDS_ALL[] = { "ap", "gd", "ip", "lfq", "lhq", "ll", "llp", "ltq", "pbq", "rnd", "spq" };
-static const char *SCHEDS[11]; static int NSCHEDS = 0;
+static const char *SCHEDS[11]; static int NSCHEDS = 0, ALLSCHEDS = 0;
 static void scheds_parse(const char *excl)
 {
     NSCHEDS = 0;
@@ -296,6 +340,7 @@ static parsec_context_t *leg_setup(void)
     O.threads = threads;
     parsec_context_t *ctx = rt_init(threads);
     if (dfs) { ds_install(ctx); ds_nstreams = threads; ds_on_livelock = on_livelock; ds_hold_mode = leg_is("hold"); dd_hook_before_insert = gate_hook; if (ds_hold_mode) dd_hook_body_inside = ds_hold_body; }
+    if (leg_is("mt")) ws_wrap();
     dd_env_init(&L.env, ctx, O.ntiles);
     if (O.isolate) {   /* warm-up in the worker itself: start the context, create the data collection, fault in the allocator, so that the forked case children do not pay for it */
         dd_prog_t wp; dd_prog_parse(&wp, "RWa"); wp.ntiles = O.ntiles; dd_cfg_t wc = { 0, 0, 0, -1, -1, 0 }; dd_res_t wr;
@@ -309,6 +354,7 @@ static void leg_teardown(parsec_context_t *ctx)
 {
     dd_env_fini(&L.env);
     if (leg_is("gate") || leg_is("hold")) ds_uninstall(ctx);
+    if (leg_is("mt")) ws_unwrap();
     parsec_fini(&ctx);
 }
 static void worker(int j, int J, void *arg, dh_stats_t *st)
@@ -316,7 +362,7 @@ static void worker(int j, int J, void *arg, dh_stats_t *st)
     (void)arg; memset(&L, 0, sizeof(L));
     SH = (shared_t *)mmap(NULL, sizeof(shared_t), PROT_READ | PROT_WRITE, MAP_SHARED | MAP_ANONYMOUS, -1, 0);
     memset(SH, 0, sizeof(*SH)); dh_stats_init(ST);
-    if (leg_is("scheds")) { O.sched = SCHEDS[j % NSCHEDS]; j = 0; J = 1; }
+    if (ALLSCHEDS) { O.sched = SCHEDS[j % NSCHEDS]; j = 0; J = 1; }
     if (O.isolate && !(leg_is("gate") || O.threads == 1)) { fprintf(stderr, "--isolate needs a single-threaded worker\n"); st->broken++; return; }
     parsec_context_t *ctx = leg_setup();
     L.t_end = dh_deadline_s > 0 ? dh_now() + dh_deadline_s : 0;
@@ -340,7 +386,8 @@ static void replay_worker(int j, int J, void *arg, dh_stats_t *st)
     dd_ref_t ref; dd_reference(&R_prog, &ref);
     for (int t = 0; t < R_prog.nt; t++) { printf("  reference: task %d sees", t); for (int k = 0; k < R_prog.t[t].np; k++) printf(" %s%c=%ld", dd_mode_name[R_prog.t[t].mode[k]], 'a' + R_prog.t[t].tile[k], (long)ref.seen[t][k]); printf("\n"); }
     int dfs = leg_is("gate") || leg_is("hold");
-    if (!dfs && !leg_is("scheds") && !leg_is("inproc")) O.leg = "inproc";
+    if (leg_is("scheds")) O.leg = "inproc";
+    if (!dfs && !leg_is("mt") && !leg_is("inproc")) O.leg = "inproc";
     parsec_context_t *ctx = leg_setup();
     ds_hold_tid = cur_hold;
     O.isolate = 0;
@@ -383,11 +430,14 @@ int main(int argc, char **argv)
     if (R_hang > 0) dh_hang_s = R_hang;
     double t0 = dh_now(); dh_stats_t st; char extra[600];
     scheds_parse(dh_arg(argc, argv, "--exclude", ""));
-    dh_pool(leg_is("scheds") ? NSCHEDS : O.jobs, worker, NULL, &st);
+    ALLSCHEDS = leg_is("scheds") || atoi(dh_arg(argc, argv, "--allscheds", "0"));
+    if (leg_is("scheds")) O.leg = "inproc";
+    dh_pool(ALLSCHEDS ? NSCHEDS : O.jobs, worker, NULL, &st);
     if (leg_is("hold")) O.threads = 2;
-    if (leg_is("scheds")) { static char sl[128]; sl[0] = 0; for (int i = 0; i < NSCHEDS; i++) { strcat(sl, i ? "," : ""); strcat(sl, SCHEDS[i]); } O.sched = sl; }
+    if (ALLSCHEDS) { static char sl[128]; sl[0] = 0; for (int i = 0; i < NSCHEDS; i++) { strcat(sl, i ? "," : ""); strcat(sl, SCHEDS[i]); } O.sched = sl; }
     if (st.extra[1]) printf("KNOWN-FINDING: property=%s %s leg=%s: %ld case(s) fail with task-object recycling on and pass, identical choice list, with recycling disabled\n", DTD_PROPERTY, ID_ABA, O.name, st.extra[1]);
     if (st.extra[3]) printf("KNOWN-FINDING: property=%s %s leg=%s: %ld program/configuration case(s) with a tile named twice by one task abort on the reader-count assertion\n", DTD_PROPERTY, ID_DUP, O.name, st.extra[3]);
+    st.extra[7] = 0;
     snprintf(extra, sizeof(extra), "\"programs\":%ld,\"threads\":%d,\"sched\":\"%s\",\"recycling\":%s,\"tree_nodes\":%ld,\"max_choice_points\":%ld,\"again_resubmissions\":%ld,\"attributed_aba\":%ld,\"attributed_dup\":%ld,\"overlapped_with_held\":%ld,\"runs_with_readers_together\":%ld",
              st.states, O.threads, O.sched[0] ? O.sched : "default", dd_norecycle ? "false" : "true", st.extra[0], st.extra[6], st.extra[2], st.extra[1], st.extra[3], st.extra[4], st.extra[5]);
     dh_report(O.name, &st, dh_now() - t0, extra);
